@@ -25,6 +25,8 @@ def gen_world(rng, i, tier):
     w["subset_seed"] = rng.getrandbits(32)
     # the callback may itself read configuration through the library (a policy file) before it answers
     w["nested"] = rng.chance(0.15)
+    # a quarantining callback: it removes the file it rejects
+    w["quarantine"] = rng.chance(0.2)
     return w
 
 
@@ -85,7 +87,10 @@ def build_plans(world):
         for vs in veto_sets(world, model):
             # a caller's callback compares the path it is handed with the names it composed itself:
             # the veto is spelled the way the caller spelled its directories (relative stays relative)
-            plans.append(one_plan(world, {"reject_spelled": [gen.rel(read, p) for p in vs]}, world["init"]))
+            cbs = {"reject_spelled": [gen.rel(read, p) for p in vs]}
+            if world.get("quarantine"):
+                cbs["reject_unlink"] = True
+            plans.append(one_plan(world, cbs, world["init"]))
         sp = stale_path(world, model)
         if sp:
             # one more member in a consulted drop-in directory: a stale symbolic link with the suffix.  Whether the
@@ -189,7 +194,9 @@ def check(world, plans, results):
         if rd["rc"] in (0, 21) and seq != exp:
             v.fail("cb:sequence", "plan %d (veto %r): callback saw %r, expected %r" % (k, vs, seq, exp))
         # state left by the refused call must not leak into the next call
-        if vs:
+        if vs and world.get("quarantine"):
+            v.probe("callback_removes_the_file_it_rejects")
+        if vs and not world.get("quarantine"):
             r2 = tagged(plan, res, "read_again")
             if r2 is not None:
                 if r2["rc"] != ra["rc"] or canon(strip_volatile(tagged(plan, res, "dump_again"))) != canon(strip_volatile(tagged(plans[1], acc, "dump"))):
